@@ -63,8 +63,10 @@ def validate(run, kf_cfg, count_cfg, traces, behaviours, group, batch=400):
             records <<finding id, strict invariant, line>>.  A finding id that is listed in
             known_findings.jsonl becomes a KNOWN-FINDING line; any other id is a violation of the
             strict invariant (so an empty known_findings.jsonl means: everything is reported)."""
-    val = v.validate_traces(run.sc, "FramingTrace", kf_cfg, traces, batch=batch)
-    run.traces_validated += val.traces
+    val = validate_traces_capped(run.sc, "FramingTrace", kf_cfg, traces, batch=batch)
+    run.extra["traces_skipped_after_violation_cap"] = (run.extra.get("traces_skipped_after_violation_cap", 0)
+                                                      + val.skipped)
+    run.traces_validated += val.traces - val.skipped
     run.events_validated += val.events
     run.evaluations += val.events
     run.extra["nontrivial_counted"] = run.extra.get("nontrivial_counted", 0) + sum(val.nontrivial.values())
@@ -90,7 +92,7 @@ def validate(run, kf_cfg, count_cfg, traces, behaviours, group, batch=400):
         bad.add(ti)
         _violation(run, group, inv, off, traces, behaviours, ti, kf_cfg)
     known_ids = set(k["id"] for k in run.known if k["property"] == run.prop)
-    idx = [i for i in range(len(traces)) if i not in bad]
+    idx = [i for i in range(len(traces)) if i not in bad] if not val.skipped else []
     reported = set()
     for b0 in range(0, len(idx), batch):
         b = idx[b0:b0 + batch]
@@ -119,6 +121,67 @@ def validate(run, kf_cfg, count_cfg, traces, behaviours, group, batch=400):
                 elif (ti, inv) not in reported:
                     reported.add((ti, inv))
                     _violation(run, group, inv, off, traces, behaviours, ti, kf_cfg, finding=kid)
+    return val
+
+
+MAX_FAILURES = 10
+
+
+def validate_traces_capped(sc, module, cfg, traces, batch=400, timeout=900):
+    """vpcore.validate_traces, except that the search for further failing traces stops after
+    MAX_FAILURES rejected traces (TLC stops at the first rejected line of a batch, so every further
+    failing trace costs one more TLC run; once the verdict is VIOLATION anyway the remaining
+    traces of that batch are left unvalidated and counted in `skipped`)."""
+    val = v.Validation()
+    val.skipped = 0
+    val.traces = len(traces)
+    val.events = sum(len(t) for t in traces)
+    idx = list(range(len(traces)))
+    pending = [idx[i:i + batch] for i in range(0, len(idx), batch)]
+    while pending:
+        b = pending.pop(0)
+        if not b:
+            continue
+        if len(val.failures) + len(val.gaps) >= MAX_FAILURES:
+            val.skipped += len(b)
+            continue
+        rows, starts = [], []
+        for ti in b:
+            starts.append(len(rows) + 1)
+            rows.extend(traces[ti])
+        v.write_ndjson(sc.path("spec", "trace.ndjson"), rows)
+        res = v.tlc(sc, module, cfg, workers=1, timeout=timeout, deadlock=False)
+        val.states += res.distinct
+        val.generated += res.generated
+        if res.ok:
+            for ln in res.printed:
+                try:
+                    o = json.loads(ln)
+                    if isinstance(o, dict) and "nontrivial" in o:
+                        for k, n in o["nontrivial"].items():
+                            val.nontrivial[k] = val.nontrivial.get(k, 0) + int(n)
+                except Exception:
+                    pass
+            continue
+        if res.violated:
+            viol = res.violated[0]
+            line = v.violation_line(viol)
+            if line is None:
+                raise v.MachineryError("cannot locate violation in TLC output:\n" + res.out[-3000:])
+            ti, off = _locate(starts, b, max(1, line - 1))
+            val.failures.append((ti, viol["name"], off))
+            pending.insert(0, [x for x in b if x != ti])
+            continue
+        if res.errors:
+            raise v.MachineryError("trace validation TLC error (%s): %s\n%s"
+                                   % (module, res.errors[:3], res.out[-4000:]))
+        if res.post_failed:
+            import re
+            m = re.search(r"VPHWM (\d+)", res.out)
+            hw = int(m.group(1)) if m else 0
+            ti, off = _locate(starts, b, max(1, hw))
+            val.gaps.append((ti, off, traces[ti][off] if off < len(traces[ti]) else None))
+            pending.insert(0, [x for x in b if x != ti])
     return val
 
 
